@@ -1,7 +1,7 @@
 import BalmProofs.JudgeExact
 import BalmProofs.JudgeSpec
 import Balm
-import BalmProofs.Props.C04
+import BalmProofs.PlainInv
 import BalmProofs.AttrTest
 import BalmProofs.Bfs
 import BalmProofs.Drivers
